@@ -176,7 +176,12 @@ def run(pid, tier, seed, replay=None):
     rbxv(["dom-drive", "--seed", seed + 17, "--episodes", max(40, episodes // 3), "--steps", steps, "--maxref", 20, "--slots", 3],
          stdout_path=trace_c3)
 
-    traces = [trace_b, trace_c, trace_c3]
+    # and a few long episodes over many instances (child lists of dozens, capacity doublings on the way)
+    trace_big = os.path.join(OUT, "%s_drive_big_trace.ndjson" % pid)
+    rbxv(["dom-drive", "--seed", seed + 31, "--episodes", 10 if quick else 300, "--steps", 220, "--maxref", 90, "--slots", 1],
+         stdout_path=trace_big)
+
+    traces = [trace_b, trace_c, trace_c3, trace_big]
     if pid == "C12":
         # reader paths: DOMs produced by the binary and XML readers from files with duplicate UniqueIds
         trace_d = os.path.join(OUT, "%s_decoded_trace.ndjson" % pid)
@@ -186,6 +191,9 @@ def run(pid, tier, seed, replay=None):
     cfg = os.path.join(OUT, "WeakDomTrace.cfg")
     write_cfg(cfg, "TraceSpec", dict(MaxRef=20, NumDoms=2, NumSlots=1),
               invariants="WellFormed UidDistinct UidSetExact UidSeen")
+    cfg_big = os.path.join(OUT, "WeakDomTraceBig.cfg")
+    write_cfg(cfg_big, "TraceSpec", dict(MaxRef=90, NumDoms=2, NumSlots=1),
+              invariants="WellFormed UidDistinct UidSetExact UidSeen")
     cfg3 = os.path.join(OUT, "WeakDomTrace3.cfg")
     write_cfg(cfg3, "TraceSpec", dict(MaxRef=20, NumDoms=2, NumSlots=3),
               invariants="WellFormed UidDistinct UidSetExact UidSeen")
@@ -193,7 +201,7 @@ def run(pid, tier, seed, replay=None):
     nontrivial = set()
     others = 0
     for trace in traces:
-        res = validate_trace("WeakDomTrace", cfg3 if trace == trace_c3 else cfg, trace)
+        res = validate_trace("WeakDomTrace", cfg3 if trace == trace_c3 else cfg_big if trace == trace_big else cfg, trace)
         total_events += res["events"]
         total_eps += res["episodes"]
         for shard, text, tail in res["violations"]:
